@@ -562,6 +562,7 @@ def subterms(ts):
 def substitute(t, mapping, _cache=None):
     """simultaneous substitution {Term: Term}; rebuilds through the smart constructors"""
     cache = {} if _cache is None else _cache
+    protect_bodies = any(k.op == "var" and k.args[0] == "%i" for k in mapping)
 
     def go(t):
         r = mapping.get(t)
@@ -572,6 +573,10 @@ def substitute(t, mapping, _cache=None):
             return r
         if t.op in ("const", "var"):
             r = t
+        elif t.op == "sum" and protect_bodies:
+            # the bound variable of a sum body is not free: leave bodies alone when it is substituted
+            n2 = go(t.args[1])
+            r = t if n2 is t.args[1] else Term("sum", (t.args[0], n2), t.sort)
         else:
             args = tuple(go(a) if isinstance(a, Term) else a for a in t.args)
             if all(x is y for x, y in zip(args, t.args)):
